@@ -26,6 +26,8 @@ RECURSIVE LogCounter(_, _, _, _, _)
 LogCounter(cfg, c, v, draws, used) ==
   IF v = 0 \/ c >= cfg.UMax THEN <<c, used>>
   ELSE IF c < cfg.NR THEN LogCounter(cfg, c + 1, v - 1, draws, used)
+  ELSE IF used + 1 > Len(draws) THEN <<c, used + v>>   \* more draws needed than the execution offers: the
+                                                         \* caller sees used > Len(draws) and rejects
   ELSE LET u == draws[used + 1] IN
        LogCounter(cfg, IF NLt(u, cfg.P[c - cfg.NR]) THEN c + 1 ELSE c, v - 1, draws, used + 1)
 
